@@ -187,6 +187,16 @@ def dict_get(ip, st, d, k, default, strict=False):
         if strict:
             _raise(KeyError, "key")
         return default
+    if isinstance(k, ModelObj) and all(isinstance(kk, str) for kk in d):
+        # a modelled str as the key of a dict of distinct str constants: its own == decides (mutually exclusive)
+        keys = list(d)
+        hits = [k == kk for kk in keys]
+        idx = st.choose(hits + [both(*[neg(h) for h in hits]) if hits else True])
+        if idx < len(keys):
+            return d[keys[idx]]
+        if strict:
+            _raise(KeyError, "key")
+        return default
     raise Unsupported(f"dict lookup with key {type(k).__name__}")
 
 
@@ -674,6 +684,8 @@ def b_abs(ip, st, x):
 def b_int(ip, st, x=0, base=None):
     x = st.force(x)
     if base is not None:
+        if isinstance(x, ModelObj) and hasattr(x, "py_int_base"):
+            return x.py_int_base(ip, st, base)  # int(<modelled str>, base): the model decides (value / ValueError)
         if isinstance(x, Sym):
             raise Unsupported("int(str, base) of symbolic text")
         try:
